@@ -14,6 +14,38 @@ CHECKS = {
   "exhaustive enumeration of the matrix (schema node kind in context) x (serde presentation): every Serializer method, every integer width at its boundaries, strs/bytes/sequences around every fixed size, wrong length hints, field sets exact/missing/unknown/duplicated/permuted, named and type-directed union selection; every Ok result is decoded by the reference decoder and judged by a denotation relation that does not depend on the branch the crate chose",
   "trusted: vmodel decoder; the denotation relation den() (DESIGN.md §4 C02); abstains on documented-lossy conversions (f64->float, decimal rescale, f64->decimal); bounds: one (quick) / two (thorough) levels of context around each node kind",
   "small-scope exhaustive enumeration of a (schema x presentation) matrix against a reference decoder", "DESIGN.md §4 C02"),
+ "C05": ("model_checking",
+  "explicit enumeration of container-writer histories (all operation sequences of length <= 3 quick / <= 5 thorough over serialize, push_serialized, finish_block) x 6 codecs x 5 schemas x approx_block_size incl. 0/1/u32::MAX, plus size families that place uncompressed block lengths on 8/16/32/64/128 KiB and compressed block lengths (located by bisection per codec and level) on the 32/64/128 KiB encoder buffer boundaries; every file is parsed by an independent container parser and read back by the real Reader through slice, BufReader(1/7/8192) and every uniform refill size 1..len (small files); each case runs in a worker subprocess",
+  "trusted: vmodel container parser and codec framing (libflate, streaming bzip2/xz, snap + own CRC-32, zstd); bounds: histories <= 3/5 ops, levels {default,1,9,200(clipped),zstd 22}, refill sweeps complete only for files <= 300/400 bytes",
+  "explicit enumeration of API histories x configurations on the real writer/reader, independent parser as oracle", "DESIGN.md §4 C05"),
+ "C06": ("model_checking",
+  "exhaustive enumeration of (W) crate-written files over writer histories x codecs x schemas x user-metadata variants, taken apart by an independent parser that checks magic, metadata keys and values, avro.schema = schema.json(), spec codec names, sync markers, per-block count/size and codec framing (raw deflate via libflate, snappy + big-endian CRC-32 of the uncompressed data); (R) reference-written files over all block partitionings incl. 0-object blocks, all key orders of <= 4 metadata keys, map layouts with negative counts, avro.codec absent, read by the real Reader; thorough adds apache-avro as second implementation in both directions",
+  "trusted: vmodel container writer/parser; apache-avro 0.17 (thorough); bounds: <= 4 (quick) / <= 6 (thorough) values per file, whole-buffer readers only (small-refill readers are C05/C11)",
+  "small-scope exhaustive enumeration of files against an independent container parser/writer", "DESIGN.md §4 C06"),
+ "C15": ("model_checking",
+  "explicit-state BFS over container-writer histories (serialize small/block-sized, serialize failing at every serde call index or by genuine type/length mismatch, push_serialized, finish_block, into_inner, drop) x codec x approx_block_size, the sink inspected after EVERY call (= every point at which the process could stop) by an independent container parser; exact state key = sink bytes + hooked writer bookkeeping; every non-terminal state is additionally closed by into_inner; differential oracle: the history with its failing calls deleted produces byte-identical sink contents after every call",
+  "trusted: vmodel container parser and datum decoder; hook Writer::verif_state (H3) for the state key only; bounds: depth 4 (quick) / 6 (thorough), codecs null/deflate/snappy (quick) / all six (thorough)",
+  "explicit-state BFS over API histories of the real writer with an exact state key; invariant evaluated in every state", "DESIGN.md §4 C15"),
+ "C16": ("fault_enumeration",
+  "deviation-bounded exploration of the sink's write schedule: every write/write_vectored call the execution actually makes is a decision point (accept all | accept k in a boundary set | Interrupted | hard error | Ok(0)); all executions with <= 2 (quick) / <= 3-4 (thorough) deviations over 5 writer histories x codecs x transient/permanent faults, plus regular k-bytes-per-call sinks k=1..40 with Interrupted/hard error/Ok(0) injected at every call index; oracle: benign schedules give the byte stream of the Vec run, a fault makes the call in progress return Err (not panic) with a prefix of the reference stream in the sink",
+  "trusted: the reference run on a Vec sink; debug-assertions build (the one in which Drop panics are observable); bounds: deviations <= 2/3/4, histories of <= 9 writer calls",
+  "deviation-bounded (iterative context bounding style) exploration of environment answers on the real writer", "DESIGN.md §4 C16"),
+ "C17": ("fault_enumeration",
+  "fault enumeration on valid files of all six codecs: every truncation offset (= every crash point of a writer), single-byte corruption at every offset with 4 (quick) / 255 (thorough, deep files) values, an I/O error injected at every read-call index, truncation x I/O double faults (thorough), and model-located framing damage (sync bytes, declared size +-1, declared count +-1, snappy CRC) x reader kinds (slice, 1-byte chunks, whole buffer; thorough also 3- and 16-byte chunks); oracle: genuine prefix only, no value after the first error/end, I/O and framing errors reported once then end of stream, located framing damage reported; every case in a worker subprocess with a horizon",
+  "trusted: vmodel container parser (locates the damage, supplies the written values); bounds: files of 75-460 bytes, <= 3 blocks, <= 4 datums per block",
+  "exhaustive single-fault (thorough: double-fault) enumeration over crash points, corruptions and I/O errors", "DESIGN.md §4 C17"),
+ "C18": ("model_checking",
+  "small-scope exhaustive enumeration: schemas (34 hand-made ASTs with pairs differing only in a name / namespace / symbol / size / order and pairs with equal canonical form but different logical types or spelling, plus the shared alphabet) x boundary values: serialization must equal C3 01 || LE64(CRC-64-AVRO(PCF)) || reference datum; decoding from slice and from every chunking of the stream; each of the 10 header bytes x 8 bit flips and every truncation length must fail identically on both paths; messages written under a schema with a different canonical form are never decoded, those with an equal canonical form are",
+  "trusted: vmodel PCF + bit-serial CRC-64-AVRO + datum codec; bounds: all chunk compositions for messages <= 12/13 bytes, uniform + single-cut chunkings above",
+  "small-scope exhaustive enumeration against a reference model, all stream chunkings for short messages", "DESIGN.md §4 C18"),
+ "C19": ("model_checking",
+  "exhaustive enumeration of builder graphs (every vector of 0-3 nodes (thorough: 4, reduced alphabet) over the public node types with every in-range key and the out-of-range keys len, len+1, usize::MAX, 1<<63..., decorated nodes with every logical type incl. wrong ones, extreme decimal/fixed parameters, pathological names) and of texts (JSON shapes to depth 2/3 at the positions the parser reads, near-miss edits of 20 seed schemas, every prefix, nesting ladders to 200 / 10^5) plus scaling ladders (diamond chains n=1..64, reference/array chains to 10^5, wide records/unions/enums to 10^5); operations Debug, to_string, fingerprint, freeze, parse, and use of every frozen schema (hostile inputs, 41 presentations); every case runs in a forked runner on an 8 MiB and a 2 MiB stack with a 10 s CPU horizon, crashes attributed to a single case by cursor + confirmation",
+  "trusted: the isolation layer (self-tested each run: it must observe its own stack overflow, loop and panic); bounds as stated; known finding D12 (chains >= 2000 records overflow the stack) listed in KNOWN_FINDINGS.jsonl",
+  "small-scope exhaustive enumeration of node graphs and texts with process isolation; scaling ladders enumerated rung by rung", "DESIGN.md §4 C19"),
+ "C20": ("model_checking",
+  "exhaustive enumeration of all type-definition programs of a grammar of the supported derive shapes up to a node bound (<= 3 nodes full alphabet, <= 4 narrow, quick; 4/5 thorough) plus systematic sweeps (every leaf kind in every position, smart pointers, maps, every logical-type attribute, name/namespace overrides, generics at all argument pairs, 19 recursion shapes, wide shapes); the programs are emitted as a generated workspace compiled against /repo's derive crates at check time; per program: schema builds twice identically, JSON accepted by the reference resolver with one definition per fullname and the expected number of record/enum definitions; per value (exhaustive small domains): to_datum Ok, reference decoder consumes exactly the bytes and the datum denotes the value, from_datum_slice returns an equal value",
+  "trusted: vmodel resolver and decoder; the generator's description of each value; rustc (a generated program that fails to compile is a machinery error, not a verdict); bounds as stated",
+  "bounded exhaustive enumeration of programs (type definitions) x values against a reference model", "DESIGN.md §4 C20"),
 }
 
 # properties deliberately not claimed (reason)
